@@ -1,14 +1,18 @@
 import WaVerif.Lemmas.C17Rv
 import WaVerif.Gen.C17Riscv
+import WaVerif.Lemmas.C17LaTable
+import WaVerif.Gen.C17Loong64
 /-!
 # C17 — property theorems (native instruction encoders vs. specification decoders)
 
 Every `theorem` in this file is an obligation of the check and is axiom-audited.
 `Gen.*` is regenerated from the repo's opcode tables on every run.
 -/
-set_option maxRecDepth 8192
+set_option maxRecDepth 16384
 
 namespace WaVerif.C17
+
+section RiscV
 open Rv
 
 /-! ## RISC-V -/
@@ -167,5 +171,142 @@ example : ∃ e ∈ isaTable, ∃ r ∈ Gen.riscvTable, rowIsa r e = true ∧
     encode r e 64 { rd := 32, rs1 := 2, rs2 := 0, rs3 := 0, imm := 31 } = .ok 0x41f0df9b := by
   refine ⟨iSh .SRAIW Opc.OP_IMM_32 5 0x20 5 true, by decide, ?_⟩
   refine ⟨{ mn := .SRAIW, opcode := 27, fmt := 3, marks := 101, funct3 := 5, funct7 := 32, rs2 := none, shamt := true }, by decide, by decide, by decide⟩
+
+/-- composition: every good row of the regenerated table round-trips through the specification decoder -/
+theorem rv_table_rows_roundtrip (r : Row) (_hr : r ∈ Gen.riscvTable) (hg : rowMatchesIsa r = true)
+    (xlen : Nat) (a : Ops) (w : Nat) :
+    ∃ e ∈ isaTable, e.mn = r.mn ∧
+      ((if e.f3.isNone ∧ (e.fmt = .R ∨ e.fmt = .R4) then a.rm < 8 else a.rm = 0) →
+        encode r e xlen a = .ok w → specDecode xlen w = some (r.mn, a)) := by
+  unfold rowMatchesIsa at hg
+  split at hg
+  · rename_i e hl
+    have he : e ∈ isaTable := List.mem_of_find?_eq_some hl
+    have hmn : r.mn = e.mn := by
+      simp only [rowIsa, Bool.and_eq_true, beq_iff_eq] at hg
+      exact hg.1.1.1.1.1.1.1
+    exact ⟨e, he, hmn.symm, fun hrm h => by rw [hmn]; exact rv_decode_encode e he r hg xlen a w hrm h⟩
+  · simp at hg
+
+end RiscV
+
+section LoongArch
+open La
+/-! ## LoongArch64 -/
+
+/-- Every format: unpacking the packed word returns the value of every segment — every register
+number, every immediate piece (split offsets included) and the opcode bits. -/
+theorem la_unpack_pack (fm : La.Fm) (vs : List Nat) (h : La.fits (La.layout fm) vs) :
+    La.unpackSegs (La.layout fm) (La.packSegs (La.layout fm) vs) = vs := La.unpack_pack _ _ h
+
+example : La.fits (La.layout .fcj_offset) [31, 7, 0, 65535, 18] := by simp only [La.layout, La.fits, La.Seg.width]; decide
+example : ¬ La.fits (La.layout .f3R) [32, 0, 0, 8] := by simp only [La.layout, La.fits, La.Seg.width]; decide
+
+/-- every reference entry: 32-bit value, no opcode bit inside an operand field, mask = mask of the layout -/
+theorem la_isa_wf : ∀ e ∈ La.isaTable, e.wf = true := La.isaTable_wf
+
+/-- per format: widths sum to 32, register fields are unsplit 5/3-bit fields, the immediate's pieces share
+one kind and tile its field value -/
+theorem la_layouts_ok : ∀ fm : La.Fm, La.layoutOK fm = true := La.layoutOK_all
+
+/-- No two reference entries match the same word (CSRXCHG is told from CSRRD/CSRWR by rj ≥ 2): the
+specification decoder is deterministic. -/
+theorem la_table_prefix_free (a b : La.Isa) (ha : a ∈ La.isaTable) (hb : b ∈ La.isaTable) (w : Nat)
+    (hma : a.matchesW w = true) (hmb : b.matchesW w = true) : a = b := by
+  rcases La.mem_of_pairwiseDisjoint _ La.isaTable_pairwiseDisjoint a ha b hb with h | h | h
+  · exact h
+  · exact (La.disjoint_sound a b w h hma hmb).elim
+  · exact (La.disjoint_sound b a w h hmb hma).elim
+
+def laKnownBadRows : List La.Mn := [.ADDU16I_D]
+
+def LaTableMatchesIsaStatement : Prop := ∀ r ∈ Gen.loong64Table, La.rowMatchesIsa r = true
+
+/-- Every row of the REGENERATED `_AOpContextTable` outside the recorded finding carries exactly the value,
+mask and format of the reference entry of its mnemonic (and the mask is the one derived from the format's
+layout, `la_isa_wf`). -/
+theorem la_table_matches_isa_partial :
+    ∀ r ∈ Gen.loong64Table, r.mn ∉ laKnownBadRows → ∃ e ∈ La.isaTable, La.rowIsa r e = true :=
+  La.mergeOK_sound laKnownBadRows La.isaTable Gen.loong64Table (by decide)
+
+/-- Decode ∘ encode: for every reference entry `e` and every table row `r` that carries `e`'s encoding,
+whatever operands the encoder model accepts (registers of the right class, numbers that fit their field,
+immediates in the signed/unsigned range of their width, aligned branch offsets in range) the
+specification decoder recovers the mnemonic and exactly those operands. -/
+theorem la_decode_encode (e : La.Isa) (he : e ∈ La.isaTable) (r : La.Row) (hr : La.rowIsa r e = true)
+    (a : La.Ops) (w : Nat) (h : La.encode r a = .ok w) :
+    La.specDecode w = some (e.mn, a) := by
+  have hwf := La.isaTable_wf e he
+  simp only [Isa.wf, Bool.and_eq_true, decide_eq_true_eq, beq_iff_eq] at hwf
+  obtain ⟨⟨hv32, hvm⟩, hmask⟩ := hwf
+  simp only [rowIsa, Bool.and_eq_true, beq_iff_eq] at hr
+  obtain ⟨⟨⟨⟨_, hrv⟩, hrf⟩, hrm⟩, _⟩ := hr
+  have hok := layoutOK_all e.fmt
+  simp only [layoutOK, Bool.and_eq_true, beq_iff_eq] at hok
+  obtain ⟨⟨hsum, _⟩, _⟩ := hok
+  simp only [encode, hrf, hrv, hrm] at h
+  split at h
+  · simp at h
+  · rename_i hun
+    split at h
+    · simp at h
+    · rename_i hcsr
+      split at h
+      · rename_i vs hsv
+        simp only [Res.ok.injEq] at h
+        have hv0 : e.mask &&& e.value = e.value := by rw [Nat.and_comm]; exact hvm
+        rw [hv0] at hsv
+        obtain ⟨hlt, hland⟩ := encode_mask (layout e.fmt) hsum _ a e.value hv32 vs hsv
+        rw [← hmask, hvm, h] at hland
+        rw [h] at hlt
+        have hm : e.matchesW w = true := by
+          simp only [Isa.matchesW, Bool.and_eq_true, decide_eq_true_eq, beq_iff_eq, Bool.or_eq_true, Bool.not_eq_true']
+          refine ⟨⟨hlt, hland⟩, ?_⟩
+          by_cases hc : e.fmt = .f2R_csr
+          · right
+            -- the rj field of the packed word is the register number, which the encoder required to be ≥ 2
+            simp only [hc, beq_self_eq_true, Bool.true_and, Bool.or_eq_true, beq_iff_eq, not_or] at hcsr
+            rw [hc] at hsv
+            simp only [layout, segVals, unpackSegs, Seg.width, immWidth, Ops.reg, reduceCtorEq, if_false, if_true] at hsv
+            rw [← h]
+            split at hsv
+            · rename_i t1 ws1 hf1 hs1
+              split at hs1
+              · rename_i t2 ws2 hf2 hs2
+                simp only [Option.some.injEq] at hsv hs1
+                subst hsv; subst hs1
+                simp only [regField] at hf2
+                split at hf2
+                · simp only [Option.some.injEq] at hf2
+                  rw [hc]
+                  simp only [layout, packSegs, Seg.width]
+                  have : t1 / 2 ^ 0 % 2 ^ 5 < 32 := Nat.mod_lt _ (by decide)
+                  omega
+                · simp at hf2
+              · simp at hs1
+            · simp at hsv
+          · left; simp [Isa.rjGe2, hc]
+        have hops : decodeOps (layout e.fmt) w = a := by
+          rw [← h]; exact ops_roundtrip e.fmt a e.value vs (by simpa using hun) hsv
+        unfold specDecode
+        rw [find?_unique isaTable _ e he hm (fun x hx hpx => la_table_prefix_free x e hx he w hpx hm)]
+        simp [hops]
+      · simp at h
+
+/-- the hypotheses are satisfiable: `bceqz $fcc7, -4194304` (most negative 21-bit word offset, split field) -/
+example : ∃ r ∈ Gen.loong64Table, ∃ e ∈ La.isaTable, La.rowIsa r e = true ∧
+    La.encode r { rd := 0, rs1 := 76, rs2 := 0, rs3 := 0, imm := -4194304 } = .ok 0x480000f0 := by
+  refine ⟨⟨.BCEQZ, 0xfc000300, 0x48000000, .fcj_offset, true⟩, by decide, ⟨.BCEQZ, 0x48000000, 0xfc000300, .fcj_offset⟩, by decide, by decide, by decide⟩
+
+/-- composition: every good row of the regenerated table round-trips through the specification decoder -/
+theorem la_table_rows_roundtrip (r : La.Row) (hr : r ∈ Gen.loong64Table) (hg : r.mn ∉ laKnownBadRows)
+    (a : La.Ops) (w : Nat) (h : La.encode r a = .ok w) : La.specDecode w = some (r.mn, a) := by
+  obtain ⟨e, he, hre⟩ := la_table_matches_isa_partial r hr hg
+  have := la_decode_encode e he r hre a w h
+  have hmn : r.mn = e.mn := by
+    simp only [La.rowIsa, Bool.and_eq_true, beq_iff_eq] at hre
+    exact hre.1.1.1.1
+  rw [hmn]; exact this
+end LoongArch
 
 end WaVerif.C17
